@@ -108,7 +108,8 @@ func checkC10Parser(c c10ParserCase, ctx *vCtx) *vFailure {
 }
 
 func genC10Parser(t *rapid.T) c10ParserCase {
-	lo := vLayoutOpts{EOL: []string{"", "\r\n", "mixed"}[rapid.IntRange(0, 2).Draw(t, "eol")]}
+	// every byte offset is tried, so the files stay small: no 4-9 KiB filler lines here
+	lo := vLayoutOpts{NoLong: true, EOL: []string{"", "\r\n", "mixed"}[rapid.IntRange(0, 2).Draw(t, "eol")]}
 	maxRec := vPick(5, 12)
 	pool := vGenNamePool(t, true, 4, "pool")
 	var d vDoc
@@ -228,7 +229,7 @@ func genC10Cmd(t *rapid.T) c10CmdCase {
 // CLI level: long lines and directories
 
 var c10CLICmds = []struct {
-	args     []string
+	args      []string
 	log, book bool
 }{
 	{[]string{"reg", "--no-color"}, true, true},
@@ -306,6 +307,127 @@ func c10LongFile(isLog bool, shape string, size int, pos string) string {
 	return strings.Join(recs, "")
 }
 
+// c10BigFile: n records, each with a unique name, about 33 bytes per record.
+func c10BigFile(isLog bool, n int) (text string, last string) {
+	var sb strings.Builder
+	for i := 0; i < n; i++ {
+		if isLog {
+			last = fmt.Sprintf("food%07d", i)
+			fmt.Fprintf(&sb, "%s:\n  %s: 1\n  meal: 2\n", vFmtDay(i%3000, ""), last)
+		} else {
+			last = fmt.Sprintf("recipe%07d", i)
+			fmt.Fprintf(&sb, "%s:\n  x: %d\n  y: 2\n", last, i%9+1)
+		}
+	}
+	return sb.String(), last
+}
+
+func c10Special(c c10CLICase, ctx *vCtx, onLog bool) *vFailure {
+	cmd := c10CLICmds[c.Cmd]
+	which := map[bool]string{true: "log", false: "book"}[onLog]
+	lp := vWriteFile("c10-log.yaml", c10LongFile(true, "", 0, ""))
+	bp := vWriteFile("c10-book.yaml", c10LongFile(false, "", 0, ""))
+	mkArgs := func(lp, bp string) []string {
+		args := make([]string, len(cmd.args))
+		for i, a := range cmd.args {
+			args[i] = strings.ReplaceAll(strings.ReplaceAll(a, "@LOG@", lp), "@BOOK@", bp)
+		}
+		return append([]string{"--today", vToday, "-d", bp, "-l", lp}, args...)
+	}
+	ctx.Label("shape:" + c.Shape)
+	ctx.Label("cmd:" + strings.Join(cmd.args[:vMin(2, len(cmd.args))], " "))
+	ctx.NonTrivial(true)
+	switch c.Shape {
+	case "big-file", "big-file-bad-tail":
+		text, last := c10BigFile(onLog, c.Size/33)
+		if c.Shape == "big-file-bad-tail" {
+			text += "  broken-entry-without-value\n"
+		}
+		if onLog {
+			lp = vWriteFile("c10-big-log.yaml", text)
+		} else {
+			bp = vWriteFile("c10-big-book.yaml", text)
+		}
+		r := vRunApp(vInvocation{Args: mkArgs(lp, bp)})
+		ctx.Run(1)
+		if c.Shape == "big-file-bad-tail" {
+			if !r.Failed {
+				return vFailSig("C10/cli/big-file/tail-ignored", "%v exits with success although the last line of its %d-byte %s is malformed: the end of the file was not read", cmd.args, len(text), which)
+			}
+			return nil
+		}
+		if r.Failed {
+			return vFailf("%v fails on a well-formed %s of %d bytes: %s", cmd.args, which, len(text), r.Err)
+		}
+		joined := strings.Join(cmd.args, " ")
+		shows := false
+		if onLog {
+			for _, p := range []string{"reg --no-color", "reg --use-old-reg-reporter", "bal", "print", "csv log", "report quantity", "report unresolved"} {
+				shows = shows || joined == p
+			}
+		} else {
+			for _, p := range []string{"csv database", "csv database-resolved", "report element-total x"} {
+				shows = shows || joined == p
+			}
+		}
+		if shows && !strings.Contains(r.Stdout, last) {
+			return vFailSig("C10/cli/big-file/truncated", "%v succeeds on a %d-byte %s but its report does not mention the last record %q: the file was not read completely", cmd.args, len(text), which, last)
+		}
+		if cmd.args[0] == "stats" {
+			st := vReadStats(r.Stdout)
+			want := fmt.Sprint(c.Size / 33)
+			if (onLog && st.LogRecords != want) || (!onLog && st.DbRecords != want) {
+				return vFailSig("C10/cli/big-file/truncated", "stats counts %s/%s records, the %s has %s", st.LogRecords, st.DbRecords, which, want)
+			}
+		}
+		return nil
+	case "fifo":
+		// the file is a named pipe: everything written to it must be taken into account
+		fifo := filepath.Join(vScratchDir(), "c10-fifo")
+		_ = os.Remove(fifo)
+		if err := syscall.Mkfifo(fifo, 0o644); err != nil {
+			vFault("mkfifo: %v", err)
+		}
+		content := c10LongFile(onLog, "", 0, "")
+		ref := vRunBin(vInvocation{Args: mkArgs(lp, bp)}, 30*time.Second)
+		done := make(chan struct{})
+		go func() {
+			defer close(done)
+			f, err := os.OpenFile(fifo, os.O_WRONLY, 0)
+			if err != nil {
+				return
+			}
+			_, _ = f.WriteString(content)
+			f.Close()
+		}()
+		flp, fbp := lp, bp
+		if onLog {
+			flp = fifo
+		} else {
+			fbp = fifo
+		}
+		got := vRunBin(vInvocation{Args: mkArgs(flp, fbp)}, 30*time.Second)
+		ctx.Run(2)
+		// unblock the writer if nobody opened the pipe for reading
+		if f, err := os.OpenFile(fifo, os.O_RDONLY|syscall.O_NONBLOCK, 0); err == nil {
+			f.Close()
+		}
+		<-done
+		if cmd.args[0] == "stats" || cmd.args[0] == "lint" {
+			// these print the file name; only success/failure is compared
+			if got.Failed != ref.Failed {
+				return vFailf("%v: fifo run failed=%v, regular file failed=%v", cmd.args, got.Failed, ref.Failed)
+			}
+			return nil
+		}
+		if !got.Failed && got.Stdout != ref.Stdout {
+			return vFailSig("C10/cli/fifo/not-read", "%v succeeds with its %s given as a named pipe but the report differs from the one for the same content in a regular file — the content was not taken into account.\n--- pipe:\n%s\n--- file:\n%s", cmd.args, which, vTrunc(got.Stdout, 500), vTrunc(ref.Stdout, 500))
+		}
+		return nil
+	}
+	return nil
+}
+
 func checkC10CLI(c c10CLICase, ctx *vCtx) *vFailure {
 	cmd := c10CLICmds[c.Cmd]
 	onLog := c.OnLog
@@ -315,12 +437,24 @@ func checkC10CLI(c c10CLICase, ctx *vCtx) *vFailure {
 	if !cmd.book {
 		onLog = true
 	}
+	if c.Shape == "big-file" || c.Shape == "big-file-bad-tail" || c.Shape == "fifo" {
+		return c10Special(c, ctx, onLog)
+	}
 	logText := c10LongFile(true, "", 0, "")
 	bookText := c10LongFile(false, "", 0, "")
 	dir := filepath.Join(vScratchDir(), "c10-dir")
 	_ = os.MkdirAll(dir, 0o755)
 	lp, bp := vWriteFile("c10-log.yaml", logText), vWriteFile("c10-book.yaml", bookText)
 	mk := func(shape string, size int) {
+		if shape == "dir-proc" {
+			// a directory whose stat size is 0
+			if onLog {
+				lp = "/proc"
+			} else {
+				bp = "/proc"
+			}
+			return
+		}
 		if shape == "dir" {
 			if onLog {
 				lp = dir
@@ -354,9 +488,9 @@ func checkC10CLI(c c10CLICase, ctx *vCtx) *vFailure {
 	which := map[bool]string{true: "log", false: "book"}[onLog]
 	ctx.Label("shape:" + c.Shape)
 	ctx.Label("cmd:" + strings.Join(cmd.args[:vMin(2, len(cmd.args))], " "))
-	ctx.NonTrivial(c.Shape == "dir" || c.Pos != "last")
+	ctx.NonTrivial(strings.HasPrefix(c.Shape, "dir") || c.Pos != "last")
 	// control: everything readable (a 60000-byte line is below the limit)
-	if c.Shape != "dir" && c.Shape != "long-heading" {
+	if !strings.HasPrefix(c.Shape, "dir") && c.Shape != "long-heading" {
 		mk("control", 60000)
 		r := run()
 		if r.Failed {
@@ -370,7 +504,7 @@ func checkC10CLI(c c10CLICase, ctx *vCtx) *vFailure {
 	}
 	if !r.Failed {
 		what := fmt.Sprintf("a %s of %d bytes (%s position)", strings.TrimPrefix(c.Shape, "long-"), c.Size, c.Pos)
-		if c.Shape == "dir" {
+		if strings.HasPrefix(c.Shape, "dir") {
 			what = "a directory"
 		}
 		return vFailSig("C10/cli/"+c.Shape+"/exit-zero", "%v exits with success although its %s is %s and cannot be read completely; it printed:\n%s", cmd.args, which, what, vTrunc(r.Stdout, 800))
@@ -387,6 +521,15 @@ func c10CLISpace() []c10CLICase {
 				continue
 			}
 			out = append(out, c10CLICase{Cmd: ci, OnLog: onLog, Shape: "dir"})
+			out = append(out, c10CLICase{Cmd: ci, OnLog: onLog, Shape: "dir-proc", Bin: ci%2 == 0})
+			out = append(out, c10CLICase{Cmd: ci, OnLog: onLog, Shape: "fifo"})
+			for _, sz := range []int{1<<20 + 300000, 5 << 20} {
+				if !vThorough() && (sz > 2<<20 || ci%3 != 0) { // quick: 1.3 MB for every third command
+					continue
+				}
+				out = append(out, c10CLICase{Cmd: ci, OnLog: onLog, Shape: "big-file", Size: sz})
+				out = append(out, c10CLICase{Cmd: ci, OnLog: onLog, Shape: "big-file-bad-tail", Size: sz})
+			}
 			for si, sh := range c10Shapes[1:] {
 				for zi, sz := range c10Sizes {
 					for pi, pos := range c10Positions {
@@ -428,7 +571,7 @@ func TestVerifC10Commands(t *testing.T) {
 func TestVerifC10CLI(t *testing.T) {
 	space := c10CLISpace()
 	vEnum(t, "C10", "c10.cli",
-		"16 commands x {log, book} x {directory given as file, line of 64 KiB / 64 KiB+1 / 70 KiB / 200 KiB as entry, comment, note or heading at first, middle or last position}, in process and through the real binary; must exit non-zero; control: the same file with a 60000-byte line succeeds (quick tier: directory for every command + a third of the long-line matrix)",
+		"16 commands x {log, book} x {directory given as file (also /proc, whose stat size is 0), named pipe as file (content must be taken into account), well-formed file of 1.3 MB / 5 MB (last record must be reported) and the same with a malformed last line (must fail), line of 64 KiB / 64 KiB+1 / 70 KiB / 200 KiB as entry, comment, note or heading at first, middle or last position}, in process and through the real binary; must exit non-zero; control: the same file with a 60000-byte line succeeds (quick tier: directory for every command + a third of the long-line matrix)",
 		fmt.Sprintf("%d combinations", len(space)), len(space),
 		func(i int) c10CLICase { return space[i] }, checkC10CLI)
 }
